@@ -338,6 +338,7 @@ REWRITES = [
     ("([a:b = 1] OR [a:c = 2]) FOLLOWEDBY [a:d = 3]", "([a:b = 1] FOLLOWEDBY [a:d = 3]) OR ([a:c = 2] FOLLOWEDBY [a:d = 3])"),
     ("[a:b = 1] AND ([a:c = 2] OR [a:d = 3])", "([a:b = 1] AND [a:c = 2]) OR ([a:b = 1] AND [a:d = 3])"),
     ("[a:b IN (1, 2, 3)]", "[a:b IN (3, 1, 2)]"), ("[a:b = 1]", "[a:b = 1.0]"), ("[a:b IN (1, 2)]", "[a:b IN (2.0, 1)]"),
+    ("[a:b[0].c = 1 OR a:b[0].d = 2]", "[a:b[0].d = 2 OR a:b[0].c = 1]"), ("[a:b[0].c = 1 OR a:b[0].c = 1]", "[a:b[0].c = 1]"),
     ("[a:b = 9007199254740992]", "[a:b = 9007199254740992.0]"), ("[a:b IN (9007199254740993, 1)]", "[a:b IN (1.0, 9007199254740993)]"),
     ("[ipv4-addr:value = '10.1.2.3/8']", "[ipv4-addr:value = '10.0.0.0/8']"), ("[windows-registry-key:key = 'HKLM\\\\Foo']", "[windows-registry-key:key = 'hklm\\\\foo']"),
 ]
@@ -346,6 +347,9 @@ DISTINCT = [
     ("[a:b NOT IN (1, 2)]", "[a:b IN (1, 2)]"), ("[a:b NOT > 1]", "[a:b > 1]"), ("[a:b = 1 AND a:c = 2]", "[a:b = 1 OR a:c = 2]"),
     ("[a:b = 1] REPEATS 2 TIMES", "[a:b = 1]"), ("([a:b = 1] AND [a:c = 2]) WITHIN 5 SECONDS", "[a:b = 1] AND [a:c = 2]"),
     ("[a:b = 1] AND ([a:b = 1] OR [a:c = 2])", "[a:b = 1]"),
+    # a list index 0 is a path step like any other
+    ("[a:b[0].c = 1]", "[a:b[0].d = 1]"), ("[a:b[0] = 1]", "[a:b = 1]"), ("[a:b[0].c = 1 OR a:b[0].d = 1]", "[a:b[0].c = 1]"), ("[a:b[0].c = 1]", "[a:b[1].c = 1]"),
+    ("[a:b[0].c = 1 AND a:b[0].d = 1]", "[a:b[0].d = 1]"),
     # integers beyond 2**53 are exact: neighbours, and an integer against the double next to it, are different constants
     ("[a:b = 9007199254740993]", "[a:b = 9007199254740992]"), ("[a:b = 9007199254740993]", "[a:b = 9007199254740992.0]"),
     ("[a:b IN (9007199254740993, 1)]", "[a:b IN (9007199254740992, 1)]"), ("[a:b > 18014398509481985]", "[a:b > 18014398509481984]"),
